@@ -78,6 +78,8 @@ def SeqD (src : List Nat) (σ : SpanTab) (j k : Nat) (is : List RDictItem) : Pro
 def WinK (src : List Nat) (σ : SpanTab) (j k : Nat) (x : RKeyword) : Prop := RSK src (σ j).1 (σ k).2 x
 def WinC (src : List Nat) (σ : SpanTab) (j k : Nat) (x : RComp) : Prop := RSC src (σ j).1 (σ k).2 x
 def WinD (src : List Nat) (σ : SpanTab) (j k : Nat) (x : RDictItem) : Prop := RSD src (σ j).1 (σ k).2 x
+/-- the items of a parameter list in an index window -/
+def SeqP (src : List Nat) (σ : SpanTab) (j k : Nat) (xs : List PItem) : Prop := SeqG (RSI src) (σ j).1 (σ k).2 xs
 
 section idx
 variable (T : TiledTab src σ N)
@@ -194,13 +196,20 @@ theorem win_namedExpr {j0 j k j' k' : Nat} {v n} (h1 : 1 ≤ k') (h2 : k' ≤ k)
     ⟨by omega, fun _ => ⟨by rw [rgOk_iff]; exact g1, by omega, Nat.le_refl _, g4⟩⟩
   exact (rs_namedExpr hrg (by omega) (by omega) hname hval).2 (by simp [plain, hp])
 
-theorem win_lambda {j k j' k' ja ka : Nat} {po ar va ko kw bd} (h1 : 1 ≤ k') (h2 : k' ≤ k) (h3 : k ≤ j) (h4 : j ≤ j')
-    (h5 : j' ≤ N) (a1 : k ≤ ka) (a2 : ka ≤ ja) (a3 : ja ≤ j) {jb kb : Nat} (hb : Win src σ jb kb bd) (b1 : k ≤ kb)
+theorem win_lambda {j k j' k' ja ka jl kl : Nat} {po ar va ko kw bd} (h1 : 1 ≤ k') (h2 : k' ≤ k) (h3 : k ≤ j) (h4 : j ≤ j')
+    (h5 : j' ≤ N) (a1 : k ≤ ka) (a2 : ka ≤ ja) (a3 : ja ≤ j) (hs : SeqP src σ jl kl (argItems po ar va ko kw))
+    (l0 : argItems po ar va ko kw = [] ∨ (ka ≤ kl ∧ jl ≤ ja ∧ 1 ≤ jl ∧ kl ≤ N))
+    {jb kb : Nat} (hb : Win src σ jb kb bd) (b1 : k ≤ kb)
     (b2 : jb ≤ j) (b3 : 1 ≤ jb) (b4 : kb ≤ N) :
     Win src σ j' k' (.lambda (S σ j, E σ k) (S σ ja, E σ ka) po ar va ko kw bd) := by
   obtain ⟨a, b, c⟩ := idx T h1 h2 h3 h4 h5
   obtain ⟨a', b', c'⟩ := idx T (k' := k) (k := ka) (j := ja) (j' := j) (by omega) a1 a2 a3 (by omega)
-  exact rs_lambda a b c a' b' c' (Win.mono T hb b2 b1 b3 (by omega) (by omega) b4)
+  have hb' := Win.mono T hb b2 b1 b3 (by omega) (by omega) b4
+  rcases l0 with l0 | ⟨l1, l2, l3, l4⟩
+  · rw [l0] at hs
+    have hs' : SeqG (RSI src) (S σ ja) (E σ ka) (argItems po ar va ko kw) := by rw [l0]; trivial
+    exact rs_lambda a b c a' b' c' hs' (Nat.le_refl _) (Nat.le_refl _) hb'
+  · exact rs_lambda a b c a' b' c' hs (T.SS l3 l2 (by omega)) (T.EE (by omega) l1 l4) hb'
 
 theorem win_slice {j k j' k' : Nat} {x y z : Option RExpr} (h1 : 1 ≤ k') (h2 : k' ≤ k) (h3 : k ≤ j) (h4 : j ≤ j')
     (h5 : j' ≤ N) (hx : ∀ e, x = some e → Win src σ j k e) (hy : ∀ e, y = some e → Win src σ j k e)
@@ -384,6 +393,31 @@ theorem rsd_idx_none {j j2 k : Nat} {v} (hv : Win src σ j2 k v) (h1 : 1 ≤ j2)
     WinD src σ j k (.mk none v) :=
   rsd_mk_none (RS.mono hv (T.SS h1 h2 h3) (Nat.le_refl _))
 
+/-! parameter items -/
+
+theorem rsi_param {m : Nat} {s : String} {n : Ident} {d : Option RExpr} (h1 : 1 ≤ m) (h2 : m ≤ N)
+    (hd : ∀ e, d = some e → ∃ jc kc, Win src σ jc kc e) :
+    RSI src (σ m).1 (σ m).2 (.param s (.mk (σ m) (σ m) n d)) :=
+  ⟨T.SE h1 h2, T.own m h1 h2, Nat.le_refl _, Nat.le_refl _, rfl, fun hp e he => by
+    obtain ⟨jc, kc, hw⟩ := hd e he
+    subst he
+    exact ⟨_, _, hw.2 hp⟩⟩
+
+theorem rsi_arg {m : Nat} {s : String} {n : Ident} (h1 : 1 ≤ m) (h2 : m ≤ N) :
+    RSI src (σ m).1 (σ m).2 (.arg s (σ m, n)) :=
+  ⟨T.SE h1 h2, T.own m h1 h2, Nat.le_refl _, Nat.le_refl _, trivial⟩
+
+/-- an item at token `m` behind a sequence that ended before it -/
+theorem seqP_snoc {j0 k m k' : Nat} {x xs} (hs : SeqP src σ j0 k xs) (hx : RSI src (σ m).1 (σ m).2 x)
+    (h0 : k ≤ N) (h0' : j0 ≤ N) (h1 : 1 ≤ m) (h2 : m < k) (h3 : m ≤ j0) (h4 : 1 ≤ k') (h5 : k' ≤ m) :
+    SeqP src σ j0 k' (xs ++ [x]) := by
+  have e1 : (σ k).2 ≤ (σ m).1 := T.ES h1 h2 h0
+  have e2 : (σ j0).1 ≤ (σ m).1 := T.SS h1 h3 h0'
+  exact SeqG.snoc (windowed_rsi src) hs e2 e1 hx (T.EE h4 h5 (by omega))
+
+theorem seqP_mono {j k k' : Nat} {xs} (h : SeqP src σ j k xs) (hk : k' ≤ k) (h2 : 1 ≤ k') (h4 : k ≤ N) :
+    SeqP src σ j k' xs := SeqG.mono_hi h (T.EE h2 hk h4)
+
 end idx
 
 /-! ### the same lemmas in the form `grind` uses: every node that occurs anywhere lies in the window of its own range
@@ -440,10 +474,12 @@ theorem own_ifExp {j k jt kt jb kb jo ko : Nat} {t bd o} (h1 : 1 ≤ k) (h3 : k 
 theorem own_namedExpr {j0 j k : Nat} {v n} (h1 : 1 ≤ k) (h3 : k ≤ j) (h3' : j < j0) (h5 : j0 ≤ N)
     (hv : Win src σ j k v) : Win src σ j0 k (.namedExpr (S σ j0, v.range.2) (.name (Sp σ j0) n) v) :=
   win_namedExpr T h1 (Nat.le_refl _) h3 h3' (Nat.le_refl _) h5 hv
-theorem own_lambda {j k ja ka jb kb : Nat} {po ar va ko kw bd} (h1 : 1 ≤ k) (h3 : k ≤ j) (h5 : j ≤ N) (a1 : k ≤ ka)
-    (a2 : ka ≤ ja) (a3 : ja ≤ j) (hb : Win src σ jb kb bd) (b1 : k ≤ kb) (b2 : jb ≤ j) (b3 : 1 ≤ jb) (b4 : kb ≤ N) :
+theorem own_lambda {j k ja ka jl kl jb kb : Nat} {po ar va ko kw bd} (h1 : 1 ≤ k) (h3 : k ≤ j) (h5 : j ≤ N) (a1 : k ≤ ka)
+    (a2 : ka ≤ ja) (a3 : ja ≤ j) (hs : SeqP src σ jl kl (argItems po ar va ko kw))
+    (l0 : argItems po ar va ko kw = [] ∨ (ka ≤ kl ∧ jl ≤ ja ∧ 1 ≤ jl ∧ kl ≤ N))
+    (hb : Win src σ jb kb bd) (b1 : k ≤ kb) (b2 : jb ≤ j) (b3 : 1 ≤ jb) (b4 : kb ≤ N) :
     Win src σ j k (.lambda (S σ j, E σ k) (S σ ja, E σ ka) po ar va ko kw bd) :=
-  win_lambda T h1 (Nat.le_refl _) h3 (Nat.le_refl _) h5 a1 a2 a3 hb b1 b2 b3 b4
+  win_lambda T h1 (Nat.le_refl _) h3 (Nat.le_refl _) h5 a1 a2 a3 hs l0 hb b1 b2 b3 b4
 theorem own_slice {j k : Nat} {x y z : Option RExpr} (h1 : 1 ≤ k) (h3 : k ≤ j) (h5 : j ≤ N)
     (hx : ∀ e, x = some e → Win src σ j k e) (hy : ∀ e, y = some e → Win src σ j k e)
     (hz : ∀ e, z = some e → Win src σ j k e) : Win src σ j k (.slice (S σ j, E σ k) x y z) :=
@@ -531,7 +567,7 @@ grind_pattern own_ifExp => TiledTab src σ N, Win src σ jt kt t, Win src σ jb 
   RExpr.ifExp (S σ j, E σ k) t bd o
 grind_pattern own_namedExpr => TiledTab src σ N, Win src σ j k v,
   RExpr.namedExpr (S σ j0, v.range.2) (RExpr.name (Sp σ j0) n) v
-grind_pattern own_lambda => TiledTab src σ N, Win src σ jb kb bd,
+grind_pattern own_lambda => TiledTab src σ N, Win src σ jb kb bd, SeqP src σ jl kl (argItems po ar va ko kw),
   RExpr.lambda (S σ j, E σ k) (S σ ja, E σ ka) po ar va ko kw bd
 grind_pattern own_slice => TiledTab src σ N, RExpr.slice (S σ j, E σ k) x y z
 grind_pattern own_boolOp => TiledTab src σ N, SeqI src σ jl kl es, RExpr.boolOp (S σ j, E σ k) op es
